@@ -351,9 +351,12 @@ def audit_verdict(aud):
 
 def lean_run_driver(prop_id, lines, timeout=3000):
     """Feed lines to Drivers/<prop_id>.lean, return list of output lines (one per input)."""
-    ok, out = lean_build("PhononModel.Model")
-    if not ok:
-        raise Broken("lean-model-build-failed", out[-3000:])
+    drv = os.path.join(LEAN_DIR, "Drivers", "%s.lean" % prop_id)
+    mods = re.findall(r"^import\s+(PhononModel\.\S+)", open(drv).read(), re.M)
+    for m in mods:
+        ok, out = lean_build(m)
+        if not ok:
+            raise Broken("lean-model-build-failed", out[-3000:])
     return lean_run(lines, timeout=timeout, driver="Drivers/%s.lean" % prop_id)
 
 
